@@ -36,11 +36,12 @@ class Case:
 class Mutant:
     """In-memory mutant of the extracted AST of a real function (engine self-test: must be refuted)."""
 
-    def __init__(self, name, qualname, transform, only_harness=None):
+    def __init__(self, name, qualname, transform, only_harness=None, max_cases=None):
         self.name = name
         self.qualname = qualname
         self.transform = transform
         self.only_harness = only_harness
+        self.max_cases = max_cases
 
 
 # ------------------------------------------------------------------------------------------------ workers
